@@ -76,7 +76,7 @@ def units():
     U.fn("x_parseProp", solver=CADICAL, pre_call=buffer(), requires=BUFOK + [VALID], assigns=["*$0", "*$1", "*$2"], ensures=dict(CUR_OK,
          property_consumes_at_least_one_byte_when_found="IMP(RET && __verif_exc == 0, __CPROVER_POINTER_OFFSET(*$0) > __CPROVER_POINTER_OFFSET(OLD(*$0)))",
          no_property_no_move="IMP(!RET && __verif_exc == 0, *$0 == OLD(*$0))"))
-    U.fn("x_parseNode", rec=True, timeout=1500, solver=CADICAL, flags=GUARD, pre_call=buffer(), requires=BUFOK + [VALID], assigns=["*$0"], ghost_entry=["char *g_entry = *$0;"],
+    U.fn("x_parseNode", rec=True, timeout=1500, solver=CADICAL, flags=GUARD, pre_call=buffer(), requires=BUFOK + [VALID, "**$0 != 0"], assigns=["*$0"], ghost_entry=["char *g_entry = *$0;"],
          loops={1: dict(assigns=["*s", "name", "value", "node", "__verif_exc"], invariant=[LV("*s"), "__verif_exc == 0", "__CPROVER_POINTER_OFFSET(*s) > __CPROVER_POINTER_OFFSET(g_entry)"], decreases=DIST("*s")),
                 2: dict(assigns=["*s", "node", "__verif_exc"], invariant=[LV("*s"), "__verif_exc == 0", "__CPROVER_POINTER_OFFSET(*s) > __CPROVER_POINTER_OFFSET(g_entry)"], decreases=DIST("*s")),
                 3: dict(assigns=["*s"], invariant=[LV("*s"), "__CPROVER_POINTER_OFFSET(*s) >= __CPROVER_POINTER_OFFSET(begin)"], decreases=DIST("*s")),
